@@ -30,6 +30,8 @@ FIXED = [
   'final registry source with a newline inside its sub-path did not parse back'),
  ("C06", "source", "fix: reject a remote package URL whose printed path contains \"//\"",
   'git::https://h/org/repo/%2Fテ/x.tf normalised to a package path containing "//" and parsed back as package + sub-path'),
+ ("C10", "offender-accepted", "fix: refuse a symlink with an absolute target in a fetched package",
+  'a fetched package with a symlink whose absolute target names a file inside the temporary directory the package is prepared in passed all checks; after the directory was renamed to its final name the finished bundle held a dangling link although the build reported no error'),
 ]
 
 FIXED += [
